@@ -220,28 +220,20 @@ func (fi *File) Mode() (os.FileMode, error) {
 }
 
 func (fi *File) SetMode(mode os.FileMode) error {
-	nd, err := fi.GetNode()
-	if err != nil {
-		return err
-	}
-
-	fsn, err := ft.ExtractFSNode(nd)
-	if err != nil {
-		if errors.Is(err, ft.ErrNotProtoNode) {
-			// Wrap raw node in protonode.
-			data := nd.RawData()
-			return fi.setNodeData(ft.FilePBDataWithStat(data, uint64(len(data)), mode, time.Time{}))
+	return fi.setNodeData(func(nd ipld.Node) ([]byte, error) {
+		fsn, err := ft.ExtractFSNode(nd)
+		if err != nil {
+			if errors.Is(err, ft.ErrNotProtoNode) {
+				// Wrap raw node in protonode.
+				data := nd.RawData()
+				return ft.FilePBDataWithStat(data, uint64(len(data)), mode, time.Time{}), nil
+			}
+			return nil, err
 		}
-		return err
-	}
 
-	fsn.SetMode(mode)
-	data, err := fsn.GetBytes()
-	if err != nil {
-		return err
-	}
-
-	return fi.setNodeData(data)
+		fsn.SetMode(mode)
+		return fsn.GetBytes()
+	})
 }
 
 // ModTime returns the files' last modification time.
@@ -259,31 +251,34 @@ func (fi *File) ModTime() (time.Time, error) {
 
 // SetModTime sets the files' last modification time.
 func (fi *File) SetModTime(ts time.Time) error {
-	nd, err := fi.GetNode()
-	if err != nil {
-		return err
-	}
-
-	fsn, err := ft.ExtractFSNode(nd)
-	if err != nil {
-		if errors.Is(err, ft.ErrNotProtoNode) {
-			// Wrap raw node in protonode.
-			data := nd.RawData()
-			return fi.setNodeData(ft.FilePBDataWithStat(data, uint64(len(data)), 0, ts))
+	return fi.setNodeData(func(nd ipld.Node) ([]byte, error) {
+		fsn, err := ft.ExtractFSNode(nd)
+		if err != nil {
+			if errors.Is(err, ft.ErrNotProtoNode) {
+				// Wrap raw node in protonode.
+				data := nd.RawData()
+				return ft.FilePBDataWithStat(data, uint64(len(data)), 0, ts), nil
+			}
+			return nil, err
 		}
-		return err
-	}
 
-	fsn.SetModTime(ts)
-	data, err := fsn.GetBytes()
-	if err != nil {
-		return err
-	}
-
-	return fi.setNodeData(data)
+		fsn.SetModTime(ts)
+		return fsn.GetBytes()
+	})
 }
 
-func (fi *File) setNodeData(data []byte) error {
+// setNodeData replaces the file's node by one holding the UnixFS data that
+// newData derives from the current node. The node lock is held from reading the
+// current node until the new one is in place, so that a node stored in between
+// (a descriptor being flushed or closed) is not overwritten by stale content.
+func (fi *File) setNodeData(newData func(cur ipld.Node) ([]byte, error)) error {
+	verifhook.Point("File.setNodeData:nodeLock.Lock")
+	fi.nodeLock.Lock()
+	data, err := newData(fi.node)
+	if err != nil {
+		fi.nodeLock.Unlock()
+		return err
+	}
 	nd := dag.NodeWithData(data)
 
 	// Preserve the previous node's links (file content blocks) and
@@ -296,8 +291,9 @@ func (fi *File) setNodeData(data []byte) error {
 		}
 	}
 
-	err := fi.dagService.Add(context.TODO(), nd)
+	err = fi.dagService.Add(context.TODO(), nd)
 	if err != nil {
+		fi.nodeLock.Unlock()
 		return err
 	}
 
@@ -308,11 +304,9 @@ func (fi *File) setNodeData(data []byte) error {
 		}
 	}
 
-	verifhook.Point("File.setNodeData:nodeLock.Lock")
-	fi.nodeLock.Lock()
 	fi.node = nd
 	parent := fi.parent
 	name := fi.name
 	fi.nodeLock.Unlock()
-	return parent.updateChildEntry(child{name, fi.node})
+	return parent.updateChildEntry(child{name, nd})
 }
